@@ -562,4 +562,68 @@ counted twice and a connection with limit 2 refuses its second query. -/
 def stepDoubleCount (s : Tdc) : Tdc := { s with queued := s.queued + 1, e1 := s.e1 + 1, h := s.h - 1 }
 example : ((Tdc.init 2).step .reserve).map (fun p => ((stepDoubleCount p.1).step .reserve).map (·.2)) = some (some .refused) := by decide
 
+/-! ## why the refusal test and the increment must be ONE critical section
+
+`Tdc.step · .reserve` is one atomic step because `c09TdcReserveShape` finds the
+test and the `reservedQuery++` between `queueMu.Lock()` and the deferred
+`Unlock`. If the test is made on a snapshot (e.g. under the read lock) and the
+increment is a later step, callers that test at the same moment are all
+admitted: -/
+
+/-- the refusal test of `ReserveNewQuery` on a snapshot of the counters -/
+def passesTest (s : Tdc) : Bool := !s.closed && decide (s.queued + s.reserved < (s.max : Int))
+
+/-- the increment alone -/
+def commit (s : Tdc) : Tdc := { s with reserved := s.reserved + 1, h := s.h + 1, nres := s.nres + 1 }
+
+def commitN : Nat → Tdc → Tdc
+  | 0, s => s
+  | n + 1, s => commitN n (commit s)
+
+theorem commitN_h (n : Nat) : ∀ s : Tdc, (commitN n s).h = s.h + n ∧ (commitN n s).reserved = s.reserved + n ∧
+    (commitN n s).e1 = s.e1 ∧ (commitN n s).max = s.max := by
+  induction n with
+  | zero => intro s; simp [commitN]
+  | succ n ih =>
+    intro s
+    obtain ⟨h1, h2, h3, h4⟩ := ih (commit s)
+    simp only [commitN]
+    refine ⟨?_, ?_, ?_, ?_⟩
+    · rw [h1]; simp [commit]; omega
+    · rw [h2]; simp [commit]; omega
+    · rw [h3]; simp [commit]
+    · rw [h4]; simp [commit]
+
+/-- the atomic step is test-then-increment on the SAME state -/
+theorem reserve_is_test_and_commit (s : Tdc) (hc : s.closed = false) :
+    s.step .reserve = if passesTest s then some (commit s, .admitted) else some (s, .refused) := by
+  by_cases h : s.queued + s.reserved ≥ (s.max : Int)
+  · have : ¬ (s.queued + s.reserved < (s.max : Int)) := by omega
+    simp [Tdc.step, passesTest, hc, h, this]
+  · have : s.queued + s.reserved < (s.max : Int) := by omega
+    simp [Tdc.step, passesTest, hc, h, this, commit]
+
+/-- **witness (check-then-act)**: on any live connection with room for at least
+one more query, `k` callers that all pass the test on the same snapshot and
+increment afterwards leave it with `k` more reservations: for every `k` above
+the room that was left the invariant `reservations + unanswered ≤ limit` of
+`tdc_limit` is broken. -/
+theorem split_reserve_exceeds_limit (s : Tdc) (hi : s.Inv) (k : Nat) (hk : s.max < s.h + s.e1 + k) :
+    (0 < k → s.closed = false → s.h + s.e1 < s.max → passesTest s = true) ∧
+    (commitN k s).max < (commitN k s).h + (commitN k s).e1 ∧ ¬ (commitN k s).Inv := by
+  obtain ⟨h1, _, h3, h4⟩ := commitN_h k s
+  refine ⟨?_, ?_, ?_⟩
+  · intro _ hc hlt
+    have hr := hi.res
+    have hq := hi.que
+    have : s.queued + s.reserved < (s.max : Int) := by omega
+    simp [passesTest, hc, this]
+  · rw [h1, h3, h4]; omega
+  · intro hinv
+    have := hinv.lim
+    rw [h1, h3, h4] at this
+    omega
+
+example : passesTest (Tdc.init 2) = true ∧ (commitN 3 (Tdc.init 2)).h = 3 := by decide
+
 end Props.C09
